@@ -186,3 +186,13 @@ def r4(ctx):
         yield PASS("C04-R4", "prevalidate/window-before-scope", "window comparisons dominate the credential-scope checks", [site(b, x, "cmp") for x in lt])
     else:
         yield VIOL("C04-R4", "prevalidate/window-before-scope", "window comparisons do not dominate the credential-scope checks", where=loc(b.j["span"]))
+
+
+import c16  # noqa: E402
+
+
+@M.rule("C04-R3", "the decision depends on the instant: offset/sign/fraction handling of the parser and UTC conversion (shared with C16-R2/R3)")
+def r3(ctx):
+    for r in list(c16.r2(ctx)) + list(c16.r3(ctx)):
+        r.rule = "C04-R3"
+        yield r
